@@ -248,7 +248,7 @@ func TestC12Exhaustive(t *testing.T) {
 				if len(vs) > 0 {
 					sc := c12Pure{Map: m, Reqs: reqs}
 					if fail := st.Judge(vs); len(fail) > 0 {
-						st.SaveReplay(sc, fail)
+						st.SaveReplay("TestC12Pure", sc, fail)
 						t.Fatalf("C12 exhaustive: %v", fail)
 					}
 				}
